@@ -100,4 +100,87 @@ theorem gen_rfc6492_eq_model : genRfc6492 decode ca bytes = modelRfc6492 decode 
               cases hlist : (({ sender := ca.handle, recipient := sg.body.sender, payload := p } : Msg).payload matches .listResponse _) <;> simp
 
 end
+/-! ## `RepositoryManager::rfc8181` (the publication twin)
+
+The generated entry point (`KM.Gen.C12.RepositoryManager.rfc8181`: validate for the publisher NAMED IN THE URL, take the
+query, process it for THAT publisher, turn a processing error into an error REPLY, sign, log) with the model's parts
+plugged in is the model's `rfc8181` the 8181 twins of the C12 theorems are about (`acts_only_for_registered_key_8181`,
+`refused_no_change_8181`, `reply_signed_by_current_id_8181`).  An edit of the entry point - the query processed for another
+publisher than the validated one, a failed validation that goes on, an error returned instead of replied, the reply signed
+before the error is mapped - changes the generated definition and the equality stops checking. -/
+
+section
+variable {Bytes : Type} (decode : Bytes → Option (Signed PMsg)) (srv : Server) (publisher : Handle) (bytes : Bytes)
+
+/-- errors: the server state, the kind of refusal and (for a processing error that becomes an error reply) its code -/
+abbrev Err8 := Server × Refusal × String
+
+/-- `RepositoryAccessProxy::decode_and_validate` for the publisher of the URL. -/
+def genValidate8 (h : Handle) : Except Err8 (Signed PMsg) :=
+  match lookup srv.publishers h with
+  | none => .error (srv, .unknownSender, "")
+  | some p =>
+    match decode bytes with
+    | none => .error (srv, .undecodable, "")
+    | some sg => if sg.signer == p.idKey && sg.fresh then .ok sg else .error (srv, .badSignature, "")
+
+def genAsQuery (m : Server × PMsg) : Except Err8 PMsg :=
+  match m.2 with
+  | .listQuery => .ok .listQuery
+  | .delta els => .ok (.delta els)
+  | _ => .error (srv, .processing, "")
+
+/-- `rfc8181_message`: list / publish for the publisher with that handle. -/
+def genProcess8 (h : Handle) (q : PMsg) : Except Err8 (Server × PMsg) :=
+  match lookup srv.publishers h with
+  | none => .error (srv, .unknownSender, "")
+  | some p =>
+    match q with
+    | .listQuery => .ok (srv, .listReply p.files)
+    | .delta els =>
+      match els.findSome? (elemError p) with
+      | some code => .error (srv, .processing, code)
+      | none =>
+        .ok ({ srv with publishers := update srv.publishers h (fun _ => { p with files := els.foldl applyElem p.files }) }, .success)
+    | _ => .error (srv, .processing, "")
+
+/-- The generated entry point with the model plugged in. -/
+def genRfc8181 : Except Err8 (Server × Signed PMsg) :=
+  KM.Gen.C12.RepositoryManager.rfc8181 (H := Handle) (CMS := Signed PMsg) (MSG := Server × PMsg) (Q := PMsg)
+    (B := Server × Signed PMsg) (ε := Err8)
+    publisher (genValidate8 decode srv bytes) (fun sg => (srv, sg.body)) (genAsQuery srv)
+    (fun q => q == .listQuery) (genProcess8 srv) (fun e => (e.1, .errorReply e.2.2))
+    (fun m => .ok (m.1, { signer := srv.idKey, body := m.2 })) id (.ok ()) (fun _ => .ok ())
+
+/-- The model's answer in the same form. -/
+def modelRfc8181 : Except Err8 (Server × Signed PMsg) :=
+  match rfc8181 decode srv publisher bytes with
+  | (s, .refused k) => .error (s, k, "")
+  | (s, .replied m) => .ok (s, m)
+
+/-- `RepositoryManager::rfc8181` as translated from the source = the model, for every server state, decoder, publisher
+handle and byte string. -/
+theorem gen_rfc8181_eq_model : genRfc8181 decode srv publisher bytes = modelRfc8181 decode srv publisher bytes := by
+  unfold genRfc8181 modelRfc8181 KM.Gen.C12.RepositoryManager.rfc8181 rfc8181 genValidate8
+  cases hl : lookup srv.publishers publisher with
+  | none => simp [Except.mapError]
+  | some p =>
+    cases hd : decode bytes with
+    | none => simp [Except.mapError]
+    | some sg =>
+      cases hv : (sg.signer == p.idKey && sg.fresh)
+      · simp [Except.mapError, hv]
+      · simp only [Except.mapError, hv, if_true, id]
+        cases hb : sg.body with
+        | listQuery => simp [genAsQuery, genProcess8, hl]
+        | delta els =>
+          simp only [genAsQuery, genProcess8, hl]
+          cases hf : els.findSome? (elemError p) with
+          | some code => simp
+          | none => simp
+        | listReply f => simp [genAsQuery]
+        | success => simp [genAsQuery]
+        | errorReply c => simp [genAsQuery]
+
+end
 end KM.Props.C12Src
